@@ -1,5 +1,5 @@
 SPECIFICATION TSpec
-CONSTANTS Ids = {} Hashes = {} Ks = {} Starts = {} MaxH = 0
+CONSTANTS Ids = {} Hashes = {} Ks = {} Starts = {} MaxH = 0 CheckDesign = FALSE
 INVARIANT Inv
 POSTCONDITION Accepted
 CHECK_DEADLOCK FALSE
